@@ -89,6 +89,29 @@ var readOnlyExternal = []string{
 // Coq strings and must not look like comment openers to line-based tools)
 var recvRe = regexp.MustCompile(`\(\*?([A-Za-z0-9_./-]+)\)\.`)
 
+// functions outside the module whose result is process state, not a function of the arguments: a listed function
+// that calls one may return different results for the same arguments (CPU count, clock, random source, environment)
+var ambientExternal = []string{
+	"runtime.GOMAXPROCS", "runtime.NumCPU", "runtime.NumGoroutine", "runtime.Gosched", "runtime.GC", "runtime.ReadMemStats",
+	"time.Now", "time.Since", "time.Until", "time.Sleep", "time.After", "time.Tick", "time.NewTimer",
+	"math/rand.", "math/rand/v2.", "crypto/rand.",
+	"os.Getenv", "os.LookupEnv", "os.Environ", "os.Getpid", "os.Hostname", "os.Getwd", "os.Args",
+}
+
+func isAmbient(fn *ssa.Function) bool {
+	n := short(fn.String())
+	for _, p := range ambientExternal {
+		if n == p || strings.HasSuffix(p, ".") && strings.HasPrefix(n, p) {
+			return true
+		}
+	}
+	return false
+}
+
+func isWriteKind(kind string) bool {
+	return !strings.HasPrefix(kind, "extcall:") && !strings.HasPrefix(kind, "dyncall:") && !strings.HasPrefix(kind, "ambient:") && kind != "Panic"
+}
+
 func short(s string) string {
 	s = strings.ReplaceAll(s, modPath+"/", "")
 	return recvRe.ReplaceAllString(s, "$1.")
@@ -695,6 +718,15 @@ func (a *analysis) scan(fn *ssa.Function) {
 						a.changed = true
 					}
 				}
+			case *ssa.Panic:
+				// the panic value is a result too (a caller that recovers keeps it): it must not point into shared memory
+				pos := ins.Pos()
+				if pos == token.NoPos {
+					pos = fn.Pos()
+				}
+				for r := range a.deepRoots(fn, ins.X) {
+					addCond(r, effect{"Panic", fn, pos}, "")
+				}
 			}
 			ci, ok := ins.(ssa.CallInstruction)
 			if !ok {
@@ -731,6 +763,13 @@ func (a *analysis) scan(fn *ssa.Function) {
 			// outside the module, or dynamically dispatched
 			var kind string
 			switch {
+			case callee != nil && isAmbient(callee):
+				pos := ci.Pos()
+				if pos == token.NoPos {
+					pos = fn.Pos()
+				}
+				addCond(root{k: kUnknown, why: "process state"}, effect{"ambient:" + short(callee.String()), fn, pos}, "")
+				continue
 			case callee != nil && allowListed(callee):
 				continue
 			case callee != nil:
@@ -1079,6 +1118,7 @@ func run(args []string) int {
 		writes, unclassified, callrows []string
 		recvWrites                     []string
 		retShared                      []string
+		ambient                        []string
 		greads                         map[*ssa.Global]bool
 		rep                            []string
 	}
@@ -1138,6 +1178,12 @@ func run(args []string) int {
 				if strings.HasPrefix(k.e.kind, "extcall:") || strings.HasPrefix(k.e.kind, "dyncall:") {
 					g.unclassified = append(g.unclassified, row)
 					g.rep = append(g.rep, "UNCLASSIFIED "+line)
+				} else if strings.HasPrefix(k.e.kind, "ambient:") {
+					g.ambient = append(g.ambient, row)
+					g.rep = append(g.rep, "AMBIENT-STATE "+line)
+				} else if k.e.kind == "Panic" {
+					g.retShared = append(g.retShared, row)
+					g.rep = append(g.rep, "PANIC-VALUE-ALIASES "+line)
 				} else if viaRecv {
 					g.recvWrites = append(g.recvWrites, row)
 				} else {
@@ -1156,7 +1202,7 @@ func run(args []string) int {
 	writers := map[*ssa.Global]map[*ssa.Function]bool{}
 	for _, fn := range a.fns {
 		for k := range a.cond[fn] {
-			if k.r.k == kGlobal && !strings.HasPrefix(k.e.kind, "extcall:") && !strings.HasPrefix(k.e.kind, "dyncall:") {
+			if k.r.k == kGlobal && isWriteKind(k.e.kind) {
 				if writers[k.r.g] == nil {
 					writers[k.r.g] = map[*ssa.Function]bool{}
 				}
@@ -1287,6 +1333,7 @@ func run(args []string) int {
 		w("Definition %sshared_writes : list swrite :=\n  %s.\n", pfx, coqList(g.writes))
 		w("Definition %sunclassified : list swrite :=\n  %s.\n", pfx, coqList(g.unclassified))
 		w("Definition %sresults_shared : list swrite :=\n  %s.\n", pfx, coqList(g.retShared))
+		w("Definition %sambient_reads : list swrite :=\n  %s.\n", pfx, coqList(g.ambient))
 		var inMod, ext []string
 		for _, gv := range globalsOf(g.greads) {
 			if gv.Pkg != nil && (gv.Pkg.Pkg.Path() == modPath || strings.HasPrefix(gv.Pkg.Pkg.Path(), modPath+"/")) {
